@@ -146,30 +146,59 @@ def opInterpK : J.Op := fun j => do
   let qphy ← J.field j "qphy" (J.list J.rat)
   pure <| J.obj [("out", J.ofList ofPos (interpGenposK kind rows qchr qphy))]
 
-def ofMeta (rows : List (Row Rat Int)) : Json :=
+def ofMetaL (mt : Meta) : Json :=
   J.ofList (fun (m : Int × Nat × Nat × Nat) =>
-    Json.arr #[J.ofInt m.1, J.ofNat m.2.1, J.ofNat m.2.2.1, J.ofNat m.2.2.2]) (groupMeta rows)
+    Json.arr #[J.ofInt m.1, J.ofNat m.2.1, J.ofNat m.2.2.1, J.ofNat m.2.2.2]) mt
 
-/-- a history of editing calls on one map object; one snapshot per call -/
+def ofMeta (rows : List (Row Rat Int)) : Json := ofMetaL (groupMeta rows)
+
+def errStr : Err → String
+  | .index => "index"
+  | .value => "value"
+
+/-- a history of calls on one map object (editing methods, attribute re-assignment, `interp_gmap` which
+    replaces the object by the derived map); one snapshot per call.  Everything that reads the stored
+    metadata runs the literal loops (`…Lit`), so a call that raises on the real object raises here. -/
 def opEdit : J.Op := fun j => do
   let rows ← J.field j "rows" (J.list row)
   let ag ← J.fieldD j "auto_group" J.bool true
+  let asp ← J.fieldD j "auto_spline" J.bool true
   let ops ← J.field j "ops" (J.list pure)
-  let mut m : MapObj Rat Int := MapObj.new rows ag true
+  let mut m : MapObj Rat Int := MapObj.new rows ag asp
   let mut snaps : Array Json := #[]
   for o in ops do
     let name ← J.field o "op" J.str
     let mut out : Json := .null
+    let mut raised : Json := .null
     match name with
     | "remove" => m := m.remove (← J.field o "idx" (J.list J.nat))
     | "select" => m := m.select (← J.field o "idx" (J.list J.nat))
     | "select_mask" => m := m.selectMask (← J.field o "mask" (J.list J.bool))
-    | "rd" => m := m.removeDiscrepancies
+    | "rd" =>
+      match m.removeDiscrepanciesLit with
+      | .ok m' => m := m'
+      | .error e => raised := .str (errStr e)
     | "group" => m := m.group
+    | "ungroup" => m := m.ungroup
+    | "reorder" => m := m.reorder (← J.field o "idx" (J.list J.nat))
     | "build" => m := m.buildSpline
+    | "copy" => pure ()
+    | "assign" => m := m.assign (← J.field o "rows" (J.list row))
+    | "interp_gmap" =>
+      let qchr ← J.field o "qchr" (J.list J.int)
+      let qphy ← J.field o "qphy" (J.list J.rat)
+      let tags ← J.field o "tags" (J.list J.int)
+      -- `copies_meta` = what the implementation was observed to do: hand the parent's metadata to the new
+      -- object (the code as is) or leave it ungrouped (the proposed repair); both are modelled
+      let asIs ← J.fieldD o "copies_meta" J.bool true
+      match (if asIs then m.interpGmap qchr qphy tags else m.interpGmapFixed qchr qphy tags) with
+      | .error e => raised := .str (errStr e)
+      | .ok none => J.fail "interp_gmap: no spline or a NaN position (outside the model)"
+      | .ok (some (d, _)) => m := d
     | "prune" =>
       -- positions are handed to the loop as the doubles python holds; the decisions are float decisions
       let g := m.ensureGrouped
+      if g.gmeta != some (groupMeta g.rows) then J.fail "prune on metadata that does not describe the arrays: not modelled" else
       let nt ← J.fieldOpt o "nt" J.rat
       let mm ← J.fieldOpt o "M" J.rat
       let rowsA := g.rows.toArray
@@ -185,13 +214,19 @@ def opEdit : J.Op := fun j => do
     | "interp" =>
       let qchr ← J.field o "qchr" (J.list J.int)
       let qphy ← J.field o "qphy" (J.list J.rat)
-      let (r, m') := m.interpGenpos qchr qphy
-      m := m'
-      out := J.ofOpt (J.ofList ofPos) r
+      match m.interpGenposLit qchr qphy with
+      | .error e => raised := .str (errStr e)
+      | .ok (r, m') =>
+        m := m'
+        out := J.ofOpt (J.ofList ofPos) r
     | s => J.fail s!"unknown edit op {s}"
+    let cong : Json := match m.congruenceLit with
+      | .ok (c, _) => J.ofBool (c.all id)
+      | .error e => .str (errStr e)
     snaps := snaps.push <| J.obj [("rows", J.ofList ofRow m.rows), ("grouped", J.ofBool m.grouped),
-      ("meta", if m.grouped then ofMeta m.rows else .null),
-      ("congruent", J.ofBool ((congruence (construct m.rows)).all id)), ("out", out)]
+      ("meta", match m.gmeta with | some mt => ofMetaL mt | none => .null),
+      ("meta_ok", J.ofBool (m.gmeta == none || m.gmeta == some (groupMeta m.rows))),
+      ("congruent", cong), ("out", out), ("raised", raised)]
   pure (.arr snaps)
 
 def optNat (j : Json) (k : String) : J.R (Option Nat) := J.fieldOpt j k J.nat
@@ -213,8 +248,14 @@ def opGdistP : J.Op := fun j => do
   let rows ← J.field j "rows" (J.list row)
   let qchr ← J.field j "qchr" (J.list J.int)
   let qphy ← J.field j "qphy" (J.list J.rat)
-  pure <| J.obj [("d1", J.ofList ofDist (gdist1p rows qchr qphy)),
-                 ("d2", J.ofMat ofDist (gdist2p rows qchr qphy))]
+  let ast ← optNat j "ast"
+  let asp ← optNat j "asp"
+  let rst ← optNat j "rst"
+  let rsp ← optNat j "rsp"
+  let cst ← optNat j "cst"
+  let csp ← optNat j "csp"
+  pure <| J.obj [("d1", J.ofList ofDist (gdist1p rows qchr qphy ast asp)),
+                 ("d2", J.ofMat ofDist (gdist2p rows qchr qphy rst rsp cst csp))]
 
 def opXoprob : J.Op := fun j => do
   let h ← fnOf j
